@@ -240,6 +240,10 @@ class DataFrame:
             if not isinstance(c, int):
                 column_indicies[i] = self.column_names.index(c)
 
+        if limit >= len(self._rows):
+            # a limit at or beyond the row count means all rows, however large it is
+            limit = -1
+
         collected = collect_cython(
             self._rows, numpy.array(column_indicies, dtype=numpy.int32), limit
         )
